@@ -155,7 +155,7 @@ func (x *Unit) typeInv(st *State, v Val, depth int) T {
 			return And(Cmp(">=", v.T, BigIntLit(r[0])), Cmp("<=", v.T, BigIntLit(r[1])))
 		}
 	case *types.Pointer, *types.Chan:
-		return And(Cmp(">=", v.T, IntLit(0)), Cmp("<=", v.T, st.alloc))
+		return And(Cmp(">=", v.T, IntLit(0)), Cmp("<=", x.proot(v.T), st.alloc))
 	case *types.Slice:
 		return And(Cmp(">=", x.u.SliceLen(v.T), IntLit(0)), Cmp(">=", x.u.SliceCap(v.T), x.u.SliceLen(v.T)))
 	case *types.Map:
@@ -513,8 +513,8 @@ func (x *Unit) lvalue(st *State, e ast.Expr) *LV {
 // location is a pseudo-LV handled by readDeref/writeDeref; for other pointees one heap cell.
 func (x *Unit) derefLV(p Val, elem types.Type) *LV {
 	srt := x.u.SortOf(elem)
-	if _, ok := under(elem).(*types.Struct); ok && !isNamed(elem, "time", "Time") {
-		return &LV{kind: lvHeap, key: "struct:" + mangle(types.TypeString(types.Unalias(elem), nil)), ref: p.T, srt: srt, typ: elem}
+	if isFlatStruct(elem) {
+		return &LV{kind: lvHeap, key: structKey(elem), ref: p.T, srt: srt, typ: elem}
 	}
 	return &LV{kind: lvHeap, key: "ptr:" + string(srt), ref: p.T, srt: srt, typ: elem}
 }
@@ -536,6 +536,42 @@ func (x *Unit) selLV(st *State, e *ast.SelectorExpr, sel *types.Selection) *LV {
 	return x.walkFields(st, cur, bt, sel.Index())
 }
 
+// isFlatStruct: struct-typed fields of heap objects are inline objects with derived addresses.
+func isFlatStruct(t types.Type) bool {
+	if t == nil || isNamed(t, "time", "Time") || isNamed(t, "math/big", "Int") {
+		return false
+	}
+	_, ok := under(t).(*types.Struct)
+	return ok
+}
+
+// fieldAddr is the address of the inline object stored in field `key` of the object at ref.
+func (x *Unit) fieldAddr(key string, ref T) T {
+	name := "addr_" + mangle(key)
+	if _, ok := x.u.funDecls[name]; !ok {
+		x.u.DeclFun(name, "(Int) Int")
+		x.u.DeclFun("base_"+mangle(key), "(Int) Int")
+		x.u.DeclFun("ptag", "(Int) Int")
+		x.u.DeclFun("proot", "(Int) Int")
+		id := len(x.u.funDecls) + 100
+		x.u.axioms = append(x.u.axioms, fmt.Sprintf(
+			"(forall ((p Int)) (! (and (= (base_%s (%s p)) p) (= (ptag (%s p)) %d) (= (proot (%s p)) (proot p)) (> (%s p) 0)) :pattern ((%s p))))",
+			mangle(key), name, name, id, name, name, name))
+		x.u.axiomName = append(x.u.axiomName, "inline-object addresses are injective: "+name)
+	}
+	return App(SInt, name, ref)
+}
+
+func (x *Unit) proot(r T) T {
+	x.u.DeclFun("ptag", "(Int) Int")
+	x.u.DeclFun("proot", "(Int) Int")
+	return App(SInt, "proot", r)
+}
+
+func structKey(t types.Type) string {
+	return "struct:" + mangle(types.TypeString(types.Unalias(t), nil))
+}
+
 // walkFields follows a field index path starting from location/pointer cur of type t.
 func (x *Unit) walkFields(st *State, cur *LV, t types.Type, path []int) *LV {
 	for _, idx := range path {
@@ -545,14 +581,22 @@ func (x *Unit) walkFields(st *State, cur *LV, t types.Type, path []int) *LV {
 			return &LV{kind: lvBlank}
 		}
 		f := stt.Field(idx)
-		if isPtr {
-			var ref T
-			if cur.kind == lvBlank && cur.ref.S != "" {
-				ref = cur.ref
+		var ref T
+		haveRef := false
+		switch {
+		case cur.kind == lvBlank && cur.ref.S != "":
+			ref, haveRef = cur.ref, true
+		case cur.kind == lvHeap && strings.HasPrefix(cur.key, "struct:"):
+			ref, haveRef = cur.ref, true // inline object: its fields live in the heap at its address
+		case isPtr:
+			ref, haveRef = x.readLV(st, cur).T, true
+		}
+		if haveRef {
+			if isFlatStruct(f.Type()) {
+				cur = &LV{kind: lvHeap, key: structKey(f.Type()), ref: x.fieldAddr(name+"."+f.Name(), ref), srt: x.u.SortOf(f.Type()), typ: f.Type()}
 			} else {
-				ref = x.readLV(st, cur).T
+				cur = &LV{kind: lvHeap, key: name + "." + f.Name(), ref: ref, srt: x.u.SortOf(f.Type()), typ: f.Type()}
 			}
-			cur = &LV{kind: lvHeap, key: name + "." + f.Name(), ref: ref, srt: x.u.SortOf(f.Type()), typ: f.Type()}
 		} else {
 			cur = &LV{kind: lvField, parent: cur, fidx: idx, typ: f.Type()}
 		}
@@ -568,6 +612,10 @@ func (x *Unit) readStructAt(st *State, p T, t types.Type) Val {
 	args := make([]T, stt.NumFields())
 	for i := 0; i < stt.NumFields(); i++ {
 		f := stt.Field(i)
+		if isFlatStruct(f.Type()) {
+			args[i] = x.readStructAt(st, x.fieldAddr(name+"."+f.Name(), p), f.Type()).T
+			continue
+		}
 		h := x.heapGet(st, name+"."+f.Name(), ArraySort(SInt, x.u.SortOf(f.Type())))
 		args[i] = Select(h, p)
 	}
@@ -578,6 +626,16 @@ func (x *Unit) writeStructAt(st *State, p T, t types.Type, v T) {
 	stt, name, _ := structOfType(types.NewPointer(t))
 	for i := 0; i < stt.NumFields(); i++ {
 		f := stt.Field(i)
+		if isFlatStruct(f.Type()) {
+			addr := x.fieldAddr(name+"."+f.Name(), p)
+			if av, ok := x.atomicView(st, &LV{kind: lvHeap, key: structKey(f.Type()), ref: addr, typ: f.Type()}); ok {
+				// atomics are only ever copied as (zero) initial values
+				x.writeLV(st, av, x.zero(av.typ))
+				continue
+			}
+			x.writeStructAt(st, addr, f.Type(), x.u.StructField(v, i))
+			continue
+		}
 		key := name + "." + f.Name()
 		h := x.heapGet(st, key, ArraySort(SInt, x.u.SortOf(f.Type())))
 		st.heap[key] = x.define("H_"+key, Store(h, p, x.u.StructField(v, i)))
@@ -623,6 +681,18 @@ func (x *Unit) evalN(st *State, e ast.Expr, n int) []Val {
 		ref := x.fresh("closure", SInt)
 		x.fact(Cmp(">", ref, IntLit(0)))
 		x.eng.closures[ref.S] = &closure{lit: e, unit: x}
+		// the literal's "captures" clauses must hold where the closure is created
+		if b := x.eng.blockFor(x.pkg.PkgPath, x.litKey(e)); b != nil {
+			for i, cl := range b.ClausesOf("captures") {
+				c := x.bodySpecCtx(st, e)
+				c.scope = x.pkg.Types.Scope().Innermost(e.Body.Lbrace + 1)
+				c.pos = e.Body.Lbrace + 1
+				g := x.specEval(st, cl.Expr, c)
+				x.oblige(st, "captures", b.Key+":"+clauseLabel(cl, i), g.T, e)
+			}
+			x.calleesUsed[x.pkg.PkgPath+"."+b.Key] = true
+			x.closureBlocks[ref.S] = b
+		}
 		return []Val{{ref, x.info.TypeOf(e)}}
 	case *ast.SelectorExpr:
 		sel := x.info.Selections[e]
@@ -770,6 +840,7 @@ func (x *Unit) addrOf(st *State, e *ast.UnaryExpr) Val {
 func (x *Unit) alloc(st *State) T {
 	r := x.define("ref", App(SInt, "+", st.alloc, IntLit(1)))
 	st.alloc = r
+	x.fact(And(Eq(x.proot(r), r), Eq(App(SInt, "ptag", r), IntLit(0))))
 	return r
 }
 
